@@ -27,6 +27,8 @@ Suppressions:
 from dataclasses import dataclass, field
 from typing import Any
 
+from src.core.linter_utils import require_number
+
 # Default action verb prefixes - methods starting with these are excluded
 # These represent actions/transformations, not property access
 DEFAULT_EXCLUDE_PREFIXES: tuple[str, ...] = (
@@ -99,6 +101,10 @@ class MethodPropertyConfig:  # thailint: ignore[dry]
     # Action verb exclusions (extend defaults or override)
     exclude_prefixes: tuple[str, ...] = DEFAULT_EXCLUDE_PREFIXES
     exclude_names: frozenset[str] = DEFAULT_EXCLUDE_NAMES
+
+    def __post_init__(self) -> None:
+        """Validate configuration values."""
+        require_number("max_body_statements", self.max_body_statements)
 
     @classmethod
     def from_dict(
